@@ -70,9 +70,9 @@ func opts(tier string, idx int) genOpts {
 // case costs about a millisecond.
 func caseCount(prop, tier string) int {
 	if prop == "C15" {
-		return evid.Tiered(tier, 1500, 400000)
+		return evid.Tiered(tier, 24000, 400000)
 	}
-	return evid.Tiered(tier, 2000, 400000)
+	return evid.Tiered(tier, 30000, 400000)
 }
 
 var c16Quota = []string{"empty-from", "empty-to", "ports-only", "pod+ns-peer", "pod+ns-peer-with-pod-outside-ns-selector",
